@@ -134,7 +134,8 @@ def validate_and_judge(v, prop, jobs, wd, also_props=()):
                          f"{json.dumps(r['first_unmatched'])[:400]}")
         else:
             accepted += len(ids)
-    ends = [e for i in runs for e in runs[i] if e["ev"] == "end"]
+    # (the recorded histories of repaired defects are scripts of the UNREPAIRED tree: leaving them is expected)
+    ends = [e for i in runs for e in runs[i] if e["ev"] == "end" and not str(i).startswith("regress.")]
     drift = sum(e["drift"] for e in ends)
     if drift:
         v.spec_drift(f"{drift} scripted runs left the TLC behaviour (a scripted gate was not parked)")
@@ -384,6 +385,10 @@ def check_server(prop, tier, replay):
             for ci, (pre, inj) in enumerate(stray_points(base, sc, rng, 60 if q else 400)):
                 jobs.append(mkjob(f"{prop}.{name}.s{ci}", sc, rng, steps=pre + [inj], seed=rng.randrange(1 << 30),
                                   expect="happy", extra_tag={"inject": inj["what"]}))
+    # the recorded histories of the defects repaired so far (scripted gate sequences)
+    for j in vlib.regression_jobs(prop, "server-job"):
+        j["scen"] = dict(j["scen"], fix=fixes())
+        jobs.append(j)
     st = validate_and_judge(v, prop, jobs, wd)
     # distinct situations exercised
     distinct = set()
